@@ -255,6 +255,22 @@ theorem loading (hr : ∀ r ∈ rs, 0 < r) (hf : 0 < f) (hn : rs ≠ [])
   have hc : 0 < cap rs (pick rs f L) := cap_pos_of_some_on rs _ hr (pick_length rs f L) hon
   rw [div_lt_iff₀ hc]; exact hs
 
+/-- **Loading, with a PTI/PTO on the bus.** The table is asked with everything the sources have to carry - consumers plus the
+given power of the PTI/PTOs (D109, D110) - so the load fraction `busLoad / capacity` of the running sources stays below the
+allowed fraction whenever some set of sources could carry that load. -/
+theorem loading_with_pti (consumers : Rat) (ptis : List (Rat × Rat)) (hr : ∀ r ∈ rs, 0 < r) (hf : 0 < f) (hn : rs ≠ [])
+    (h : ∃ Q : Pat, Q.length = rs.length ∧ busLoad consumers ptis < f * cap rs Q) :
+    busLoad consumers ptis / cap rs (pick rs f (busLoad consumers ptis)) < f :=
+  loading hr hf hn h
+
+/-- As found, the table was asked with the consumers alone: two 1000 kW sets at 80 %, consumers 500 kW and a PTI/PTO motoring
+with 400 kW - one set is started and carries 900 kW (90 %), although both together would carry it at 45 %. -/
+theorem loading_legacy_overload :
+    busLoadLegacy 500 [(400, 1)] < 4 / 5 * cap [1000, 1000] [true, false] ∧
+    ¬ (busLoad 500 [(400, 1)] / cap [1000, 1000] [true, false] < 4 / 5) ∧
+    busLoad 500 [(400, 1)] / cap [1000, 1000] [true, true] < 4 / 5 := by
+  decide +kernel
+
 /-! ### Non-vacuity: the tie at 300 kW of ratings 100/200/300 -/
 
 example : (300 : Rat) < 1 * cap [100, 200, 300] (pick [100, 200, 300] 1 300) :=
